@@ -6,5 +6,7 @@ import os, sys, json
 sys.path.insert(0, os.path.dirname(os.path.abspath(__file__)))
 import lib
 ids = [json.loads(l)['id'] for l in open(os.path.join(lib.ROOT, 'properties.jsonl'))]
-json.dump({i: lib.anchored_hashes(i) for i in ids}, open(os.path.join(lib.ROOT, 'harness', 'ast_hashes.json'), 'w'), indent=1, sort_keys=True)
+rec = {i: lib.anchored_hashes(i) for i in ids}
+rec['_library'] = lib.library_hashes()
+json.dump(rec, open(os.path.join(lib.ROOT, 'harness', 'ast_hashes.json'), 'w'), indent=1, sort_keys=True)
 print('recorded', len(ids))
